@@ -390,6 +390,10 @@ pub(crate) struct LogReader {
     log where they make the records written after them unreadable.
     */
     has_partial_tail: bool,
+
+    /// The number of bytes that were dropped because they were damaged or did not belong to a
+    /// complete record.
+    dropped_bytes: u64,
 }
 
 /// Public methods
@@ -416,9 +420,18 @@ impl LogReader {
             current_cursor_position: initial_block_offset,
             current_block_offset: 0,
             has_partial_tail: false,
+            dropped_bytes: 0,
         };
 
         Ok(reader)
+    }
+
+    /**
+    Returns the number of bytes dropped so far because of detected corruption. Readers of logs
+    where a missing record cannot be tolerated (i.e. the manifest) must check this.
+    */
+    pub fn dropped_bytes(&self) -> u64 {
+        self.dropped_bytes
     }
 
     /// Returns true if the log ended with a partially written physical record.
@@ -461,6 +474,14 @@ impl LogReader {
                         _ => return Err(physical_read_err),
                     }
                 }
+
+                // A damaged physical record (e.g. checksum mismatch) is skipped, together with
+                // the fragments of the record that was being assembled: they must not be glued
+                // to whatever follows.
+                LogReader::log_corruption(data_buffer.len() as u64);
+                self.dropped_bytes += (data_buffer.len() + HEADER_LENGTH_BYTES) as u64;
+                in_fragmented_record = false;
+                data_buffer.clear();
             } else {
                 let record = maybe_record.unwrap();
 
@@ -471,6 +492,7 @@ impl LogReader {
                                 data_buffer.len() as u64,
                                 "Partial record without an end.".to_owned(),
                             );
+                            self.dropped_bytes += (data_buffer.len() + HEADER_LENGTH_BYTES) as u64;
                             data_buffer.clear();
                         }
 
@@ -483,6 +505,7 @@ impl LogReader {
                                 data_buffer.len() as u64,
                                 "Partial record without an end.".to_owned(),
                             );
+                            self.dropped_bytes += (data_buffer.len() + HEADER_LENGTH_BYTES) as u64;
                             data_buffer.clear();
                         }
 
@@ -497,6 +520,7 @@ impl LogReader {
                                 record.data.len() as u64,
                                 "Missing the start of a fragmented record.".to_owned(),
                             );
+                            self.dropped_bytes += (record.data.len() + HEADER_LENGTH_BYTES) as u64;
                         }
                     }
                     BlockType::Last => {
@@ -509,6 +533,7 @@ impl LogReader {
                             record.data.len() as u64,
                             "Missing the start of a fragmented record.".to_owned(),
                         );
+                        self.dropped_bytes += (record.data.len() + HEADER_LENGTH_BYTES) as u64;
                     }
                 }
             }
